@@ -568,6 +568,184 @@ fn derive_table(out: &mut String) {
     writeln!(out, "def nDeriveCases : Nat := {}\n\nend Soa.Extracted", cases.len()).unwrap();
 }
 
+fn sig_dump() {
+    let src = "#[soa_derive(Clone)] pub struct P { pub a: A, #[nested_soa] pub n: N, pub c: C }";
+    let ast: syn::DeriveInput = syn::parse_str(src).expect("parse");
+    let input = input::Input::new(ast);
+    for tstream in [vec::derive(&input), refs::derive(&input), ptr::derive(&input), slice::derive(&input), slice::derive_mut(&input),
+                    index::derive(&input), iter::derive(&input), generic::derive_slice(&input), generic::derive_slice_mut(&input), generic::derive_vec(&input)] {
+        let file: syn::File = syn::parse2(tstream).expect("generated code parses");
+        for item in &file.items {
+            if let Item::Struct(st) = item { println!("STRUCT {}", st.to_token_stream().to_string()); }
+            if let Item::Impl(im) = item {
+                if im.unsafety.is_some() { println!("UNSAFE IMPL {}", im.to_token_stream().to_string()); }
+                let owner = im.self_ty.to_token_stream().to_string();
+                let tr = im.trait_.as_ref().map(|(_, p, _)| p.to_token_stream().to_string()).unwrap_or_default();
+                let gens = im.generics.to_token_stream().to_string();
+                for ii in &im.items {
+                    if let ImplItem::Fn(f) = ii {
+                        println!("{} | {} | {} | {}", owner, tr, gens, f.sig.to_token_stream().to_string());
+                    }
+                }
+            }
+        }
+    }
+}
+
+
+// ---------- compile-time surface (C18): signature table, field type constructors, unsafe impls ----------
+fn k9_of(ty: &str) -> Option<&'static str> {
+    // ty: type text without spaces
+    let t = ty.trim_start_matches('&').trim_start_matches("'a").trim_start_matches("mut");
+    let base = t.split('<').next().unwrap_or("");
+    match base {
+        "PVec" => Some("vec"), "PSlice" => Some("slice"), "PSliceMut" => Some("sliceMut"), "PRef" => Some("ref"), "PRefMut" => Some("refMut"),
+        "PPtr" => Some("ptr"), "PPtrMut" => Some("ptrMut"), "PIter" => Some("iter"), "PIterMut" => Some("iterMut"), _ => None,
+    }
+}
+fn out_class(ret: &str) -> &'static str {
+    // ret: return type text without spaces, associated types already resolved where the impl defines them
+    const MUT: [&str; 8] = ["PSliceMut", "PRefMut", "PIterMut", "MutOutput", "SliceMut<", "RefMut<", "IterMut<", "&mut"];
+    const SHARED: [&str; 8] = ["PSlice", "PRef", "PIter", "RefOutput", "Slice<", "Ref<", "Iter<", "&"];
+    let lt_mut = ret.contains("&'") && ret.contains("mut");   // & 'a mut T
+    if MUT.iter().any(|m| ret.contains(m)) || lt_mut { return "mutable"; }
+    if SHARED.iter().any(|m| ret.contains(m)) { return "shared"; }
+    "none"
+}
+fn ctor_of(ty: &str) -> String {
+    // ty without spaces
+    if ty.starts_with("Vec<") { return ".vec".into(); }
+    if ty.starts_with("&'amut[") { return ".sliceMutRef".into(); }
+    if ty.starts_with("&'a[") { return ".sliceRef".into(); }
+    if ty.starts_with("&'amut") { return ".refMut".into(); }
+    if ty.starts_with("&'a") { return ".ref".into(); }
+    if ty.starts_with("*const") { return ".ptrConst".into(); }
+    if ty.starts_with("*mut") { return ".ptrMut".into(); }
+    if ty.starts_with("::std::slice::IterMut<") { return ".sliceIterMut".into(); }
+    if ty.starts_with("::std::slice::Iter<") { return ".sliceIter".into(); }
+    for (n, k) in [("NVec", "vec"), ("NSliceMut", "sliceMut"), ("NSlice", "slice"), ("NRefMut", "refMut"), ("NRef", "ref"), ("NPtrMut", "ptrMut"), ("NPtr", "ptr")] {
+        if ty == n || ty.starts_with(&format!("{}<", n)) { return format!("(.nested .{})", k); }
+    }
+    if ty.starts_with("<Nassoa_derive::SoAIter<'a>>::IterMut") { return "(.nested .iterMut)".into(); }
+    if ty.starts_with("<Nassoa_derive::SoAIter<'a>>::Iter") { return "(.nested .iter)".into(); }
+    ".other".into()
+}
+fn zip_leaves(t: &Type, out: &mut Vec<String>) {
+    // Zip<Zip<A, B>, C> -> [A, B, C]
+    if let Type::Path(p) = t {
+        if let Some(seg) = p.path.segments.last() {
+            if seg.ident == "Zip" {
+                if let syn::PathArguments::AngleBracketed(ab) = &seg.arguments {
+                    for a in &ab.args { if let syn::GenericArgument::Type(inner) = a { zip_leaves(inner, out); } }
+                    return;
+                }
+            }
+        }
+    }
+    out.push(ts(t));
+}
+fn surface_tables(out: &mut String) {
+    use std::fmt::Write;
+    let src = "#[soa_derive(Clone)] pub struct P { pub a: A, #[nested_soa] pub n: N, pub c: C }";
+    let ast: syn::DeriveInput = syn::parse_str(src).expect("parse");
+    let input = input::Input::new(ast);
+    let mut sigs: Vec<String> = vec![];
+    let mut ctors: Vec<String> = vec![];
+    let mut unsafe_impls: Vec<String> = vec![];
+    let mut json: Vec<String> = vec![];
+    for tstream in [vec::derive(&input), refs::derive(&input), ptr::derive(&input), slice::derive(&input), slice::derive_mut(&input),
+                    index::derive(&input), iter::derive(&input), generic::derive_slice(&input), generic::derive_slice_mut(&input), generic::derive_vec(&input)] {
+        let file: syn::File = syn::parse2(tstream).expect("generated code parses");
+        for item in &file.items {
+            match item {
+                Item::Struct(st) => {
+                    if let Some(k) = k9_of(&st.ident.to_string()) {
+                        let mut cs: Vec<String> = vec![];
+                        match &st.fields {
+                            syn::Fields::Named(n) => for f in &n.named { cs.push(ctor_of(&ts(&f.ty))); },
+                            syn::Fields::Unnamed(u) => for f in &u.unnamed { let mut leaves = vec![]; zip_leaves(&f.ty, &mut leaves); for l in leaves { cs.push(ctor_of(&l)); } },
+                            syn::Fields::Unit => {}
+                        }
+                        ctors.push(format!("(.{}, [{}])", k, cs.join(", ")));
+                    }
+                }
+                Item::Impl(im) => {
+                    let owner = ts(&im.self_ty);
+                    let tr = im.trait_.as_ref().map(|(_, p, _)| ts(p)).unwrap_or_default();
+                    if im.unsafety.is_some() { unsafe_impls.push(format!("{} for {}", tr, owner)); }
+                    // associated types defined by this impl (to resolve `Self::X` in return types)
+                    let mut assoc: Vec<(String, String)> = vec![];
+                    for ii in &im.items { if let ImplItem::Type(t) = ii { assoc.push((t.ident.to_string(), ts(&t.ty))); } }
+                    assoc.sort_by_key(|(n, _)| std::cmp::Reverse(n.len()));   // `Self::RefMut` before `Self::Ref`
+                    for ii in &im.items {
+                        if let ImplItem::Fn(f) = ii {
+                            let mut ret = match &f.sig.output { syn::ReturnType::Default => String::new(), syn::ReturnType::Type(_, t) => ts(t) };
+                            for (n, t) in &assoc { ret = ret.replace(&format!("Self::{}", n), t); }
+                            // source: the receiver when the impl is on a generated type / the element type / a reference to the vector,
+                            // otherwise the first parameter of such a type
+                            let mut mode = "none"; let mut srck = ".other".to_string();
+                            let own_k = k9_of(&owner);
+                            let recv = f.sig.receiver();
+                            // lifetime of the borrow through which the source is taken (None: elided or by value)
+                            let mut src_lt: Option<String> = None;
+                            let ref_lt = |t: &Type| -> Option<String> { if let Type::Reference(r) = t { r.lifetime.as_ref().map(|l| format!("'{}", l.ident)) } else { None } };
+                            if let Some(r) = recv {
+                                if let Some((_, Some(lt))) = &r.reference { src_lt = Some(format!("'{}", lt.ident)); }
+                                if r.reference.is_none() { src_lt = ref_lt(&im.self_ty); }
+                                let by_ref = r.reference.is_some();
+                                let m = if by_ref { if r.mutability.is_some() { "excl" } else { "shared" } } else { "value" };
+                                if let Some(k) = own_k {
+                                    srck = format!("(.gen .{})", k);
+                                    mode = if owner.starts_with("&'amut") { "excl" } else if owner.starts_with("&'a") { "shared" } else { m };
+                                } else if owner == "P" { srck = ".elem".into(); mode = m; }
+                            }
+                            if srck == ".other" {
+                                for a in &f.sig.inputs {
+                                    if let syn::FnArg::Typed(pt) = a {
+                                        let t = ts(&pt.ty);
+                                        if let Some(k) = k9_of(&t) {
+                                            src_lt = ref_lt(&pt.ty);
+                                            srck = format!("(.gen .{})", k);
+                                            mode = if t.starts_with("&'amut") || t.starts_with("&mut") { "excl" } else if t.starts_with('&') { "shared" } else { "value" };
+                                            break;
+                                        }
+                                    }
+                                }
+                            }
+                            let oc = out_class(&ret);
+                            // lifetimes named in the (resolved) return type
+                            let mut ret_lts: Vec<String> = vec![];
+                            { let b: Vec<char> = ret.chars().collect(); let mut i = 0;
+                              while i < b.len() { if b[i] == '\'' { let mut j = i + 1; while j < b.len() && (b[j].is_alphanumeric() || b[j] == '_') { j += 1; }
+                                  ret_lts.push(b[i..j].iter().collect()); i = j; } else { i += 1; } } }
+                            // the result borrows from the borrow of the source: no lifetime named (elision), or the source's borrow lifetime named
+                            let tied = ret_lts.is_empty() || ret_lts.iter().all(|l| l == "'_") || src_lt.as_ref().map(|l| ret_lts.contains(l)).unwrap_or(false);
+                            sigs.push(format!("⟨{}, {}, {}, {}, .{}, {}, .{}, {}⟩", lean_str(&owner), lean_str(&tr), lean_str(&f.sig.ident.to_string()),
+                                              f.sig.unsafety.is_some(), mode, srck, oc, tied));
+                            json.push(format!("{{\"owner\":\"{}\",\"trait\":\"{}\",\"name\":\"{}\",\"unsafe\":{},\"mode\":\"{}\",\"src\":\"{}\",\"out\":\"{}\",\"tied\":{},\"ret\":\"{}\",\"sig\":\"{}\"}}",
+                                              owner, tr.replace('"', "'"), f.sig.ident, f.sig.unsafety.is_some(), mode, srck, oc, tied, ret.replace('"', "'"),
+                                              f.sig.to_token_stream().to_string().replace('"', "'")));
+                        }
+                    }
+                }
+                _ => {}
+            }
+        }
+    }
+    writeln!(out, "import Soa.Model.Surface\n-- generated by /verif/extract from the generator sources in /repo/soa-derive-internal/src (schematic struct P {{ a: A, #[nested_soa] n: N, c: C }}, with the Clone API); do not edit").unwrap();
+    writeln!(out, "namespace Soa.Extracted\nopen Soa.Surface\n").unwrap();
+    writeln!(out, "/-- every generated function: owner, trait, name, unsafe, how it takes its source, source kind, access carried by the result,\n    whether the result borrows from the borrow of the source (as opposed to carrying the source's own lifetime) -/").unwrap();
+    writeln!(out, "def sigs : List Sig := [\n  {}]\n", sigs.join(",\n  ")).unwrap();
+    writeln!(out, "/-- field type constructors of the nine generated types (plain field, nested field, plain field) -/").unwrap();
+    writeln!(out, "def fieldCtors : List (K9 × List Ctor) := [\n  {}]\n", ctors.join(",\n  ")).unwrap();
+    writeln!(out, "/-- `unsafe impl` items in the generated code -/").unwrap();
+    writeln!(out, "def unsafeImpls : List String := [{}]\n\nend Soa.Extracted", unsafe_impls.iter().map(|s| lean_str(s)).collect::<Vec<_>>().join(", ")).unwrap();
+    // the same table for the probe generator
+    let dir = std::env::var("SOA_EXTRACT_JSON").unwrap_or_else(|_| "/verif/work".into());
+    let _ = std::fs::create_dir_all(&dir);
+    write_if_changed(&format!("{}/sigs.json", dir), &format!("[\n{}\n]\n", json.join(",\n")));
+}
+
 /// write only when the content changed, so that `lake build` re-checks nothing on an unchanged tree
 fn write_if_changed(path: &str, content: &str) {
     if std::fs::read_to_string(path).map(|old| old == content).unwrap_or(false) { return; }
@@ -576,6 +754,7 @@ fn write_if_changed(path: &str, content: &str) {
 }
 
 fn main() {
+    if std::env::args().nth(1).as_deref() == Some("--sigs") { sig_dump(); return; }
     let outdir = std::env::args().nth(1).unwrap_or_else(|| "/verif/lean/Soa/Extracted".into());
     std::fs::create_dir_all(&outdir).unwrap();
     let mut s = String::new();
@@ -593,4 +772,7 @@ fn main() {
     let mut d = String::new();
     derive_table(&mut d);
     write_if_changed(&format!("{}/Derive.lean", outdir), &d);
+    let mut f = String::new();
+    surface_tables(&mut f);
+    write_if_changed(&format!("{}/Surface.lean", outdir), &f);
 }
